@@ -25,7 +25,18 @@ def strip_generics(s):
                 depth -= 1
                 if depth == 0:
                     inner = s[1:i]
-                    parts = inner.split(" as ")
+                    # split at the top-level " as " only
+                    d2, cut = 0, None
+                    for j2 in range(len(inner)):
+                        ch2 = inner[j2]
+                        if ch2 == "<":
+                            d2 += 1
+                        elif ch2 == ">":
+                            d2 -= 1
+                        elif d2 == 0 and inner.startswith(" as ", j2):
+                            cut = j2
+                            break
+                    parts = [inner] if cut is None else [inner[:cut], inner[cut + 4:]]
                     return "<" + " as ".join(_strip(p) for p in parts) + ">" + _strip(s[i + 1:])
         return s
     return _strip(s)
